@@ -87,13 +87,15 @@ func gContains(a, b geometry.Geometry) bool {
 // neighbour: args = s valid|cfg ...  (valid in bit 0, index config in bits 1..3)
 var pairCfgs = []*geometry.IndexOptions{noIndex, idxOpts(1, 1), idxOpts(2, 1), idxOpts(2, 64)}
 
-// tag 50: args = s flags shapeA shapeB ; flags = valid + 2*cfg
+// tag 50: args = s flags shapeA shapeB ; flags = valid + 2*cfgA + 8*d, B's index configuration is
+// (cfgA + d) mod 4: the two operands need not be indexed alike
 func implPair(a []int64) []int64 {
 	sc := a[0]
-	opts := pairCfgs[(a[1]>>1)&3]
+	ca := (a[1] >> 1) & 3
+	optsA, optsB := pairCfgs[ca], pairCfgs[(ca+(a[1]>>3)&3)&3]
 	sa, rest := decShape(a[2:])
 	sb, _ := decShape(rest)
-	A, B := sa.geom(sc, opts), sb.geom(sc, opts)
+	A, B := sa.geom(sc, optsA), sb.geom(sc, optsB)
 	return bools(gIntersects(A, B), gIntersects(B, A), gContains(A, B), gContains(B, A))
 }
 
@@ -538,7 +540,15 @@ func pairDo(w *W, rng *rand.Rand, A, B shp, sc int64, allCfgs bool) {
 		ncfg = len(pairCfgs)
 	}
 	for c := 0; c < ncfg; c++ {
-		args := append([]int64{sc, 1 + 2*int64(c)}, A.enc()...)
+		ca := int64(c)
+		if !allCfgs {
+			ca = int64(rng.Intn(len(pairCfgs)))
+		}
+		d := int64(0)
+		if rng.Intn(2) == 0 {
+			d = int64(rng.Intn(len(pairCfgs)))
+		}
+		args := append([]int64{sc, 1 + 2*ca + 8*d}, A.enc()...)
 		args = append(args, B.enc()...)
 		out := w.Do(w.pairTag, args, true)
 		if c == 0 {
